@@ -1,0 +1,20 @@
+//go:build verif
+
+package t_api
+
+// Contracts for the verif engine (/verif). Comment-only: no code is compiled
+// from this file with or without the tag.
+
+// String is total on every status the kernel defines (it panics on anything else).
+//@ func (StatusCode).String
+//@ props C13 C15
+//@ nopanic C13 C15
+//@ opaque
+//@ requires kstatus.any(s)
+
+// String is total on every request kind.
+//@ func (Kind).String
+//@ props C13 C15
+//@ nopanic C13 C15
+//@ opaque
+//@ requires k >= ReadPromise && k <= Echo
